@@ -40,6 +40,10 @@ def run(ctx):
     sp, ap = m.func("symmetric_projection.symmetric_projection"), m.func("antisymmetric_projection.antisymmetric_projection")
     ps = m.func("perm_sign.perm_sign")
     check_call_bases(ctx, ap, "perm_sign.perm_sign", "perm")
+    # both projectors build their permutation operators from the sparse identity: the permuting routine must cope with it for every size
+    from ..rules import r_sparse_safe
+    ctx.rule("R-KIND", "a possibly sparse operand is indexed only on paths where it has been made dense (typestate D/S/M over the structured control flow)")
+    r_sparse_safe(ctx, m.func("permute_systems.permute_systems"), "input_mat", chain=["symmetric_projection", "permutation_operator", "permute_systems"])
     for f in (sp, ap):
         check_call_bases(ctx, f, "permutation_operator.permutation_operator", "perm")
         r_bind_literal(ctx, f, "permutation_operator.permutation_operator", "inv_perm", False)
